@@ -90,14 +90,14 @@ REGISTRY = {
         replay=dict(script="replay/c08.py", args=["3"], timeout=600),
         bounded=[dict(name="cross-process-seed-and-order", script="replay/c08.py", args=["3"],
                       bound="25 values (nested dicts/sets, mixed keys, decimals, equal distinct strings) hashed in 6 fresh interpreters (3 PYTHONHASHSEEDs x 2 construction orders) "
-                            "against a reference process; 5 discrimination groups")],
+                            "against a reference process; 5 discrimination groups; all pairs of a recursive universe of ~1000 builtin values (equal digests <=> equal type-aware canonical form)")],
         trusted=["pickle._Pickler emits a stream that is a function of the tokens it is handed, injective incl. type tags", "md5 / sha1 collision-freeness",
                  "sorted(): canonical on strict total orders, TypeError when a comparison raises, input-order dependent on partial orders"],
         assumptions=["induction hypothesis: joblib's own hash of a sub-value is a function of its abstract value", "NumpyHasher (array branch) is not under contract (C19 covers persistence, not hashing)"],
         undecided_clauses=["type discrimination of leaves is the base pickler's (assumed); the joblib-owned part is that no override maps two abstract values to one token sequence"],
     ),
     "C05": dict(
-        packs=["store", "mem"], level="proof",
+        packs=["store", "mem", "xfl"], level="proof",
         replay=dict(script="replay/mem.py", args=["C05"], timeout=600),
         bounded=[dict(name="audit-scenarios", script="replay/found.py", args=["C05", "{tier}"], timeout=1500, bound="scenarios contributed by audit sub-agents (replay/found/MANIFEST.json): repaired defects must stay repaired, recorded findings are probed"), dict(name="crash-state-recovery", script="replay/mem.py", args=["C05"],
                       bound="fresh-process call from every crash state of one entry: missing/torn metadata, missing/torn output, empty entry dir, leftover temporary, "
@@ -123,9 +123,9 @@ REGISTRY = {
                            "two racing clearers may see FileNotFoundError from rm_subdirs (outside the property: it is about calls of cached functions)"],
     ),
     "C02": dict(
-        packs=["mem", "c07"], level="proof",
+        packs=["mem", "c07", "c08", "xfl"], level="proof",
         replay=dict(script="replay/mem.py", args=["C02"], timeout=600),
-        bounded=[dict(name="audit-scenarios", script="replay/found.py", args=["C02", "{tier}"], timeout=1500, bound="scenarios contributed by audit sub-agents (replay/found/MANIFEST.json): repaired defects must stay repaired, recorded findings are probed"), dict(name="memory-scenarios", script="replay/mem.py", args=["C02"],
+        bounded=[dict(name="hash-discrimination-all-pairs", script="replay/c08.py", args=["pairs"], timeout=600, bound="joblib.hash over a recursive universe of ~1000 builtin scalars / containers (depth 2): equal digests <=> equal type-aware canonical form, all pairs, md5 and sha1"), dict(name="audit-scenarios", script="replay/found.py", args=["C02", "{tier}"], timeout=1500, bound="scenarios contributed by audit sub-agents (replay/found/MANIFEST.json): repaired defects must stay repaired, recorded findings are probed"), dict(name="memory-scenarios", script="replay/mem.py", args=["C02"],
                       bound="call-form equivalence / redefinition / crash-state scenarios on a real cache directory (every truncation length of func_code.py, "
                             "missing or torn metadata and output, leftover temporaries, with and without expires_after); extract_first_line on every prefix"), dict(name="filter_args-vs-interpreter", script="replay/c07.py", args=["4"],
                           bound="every signature with <= 4 parameters x every call shape (31441 calls, 3591 accepted by Python)")],
@@ -135,7 +135,7 @@ REGISTRY = {
         undecided_clauses=["compression settings do not enter the logic under contract (they are passed through to numpy_pickle.dump, C03)"],
     ),
     "C06": dict(
-        packs=["mem", "c07", "c08"], level="proof",
+        packs=["mem", "c07", "c08", "fmt"], level="proof",
         replay=dict(script="replay/mem.py", args=["C06"], timeout=600),
         bounded=[dict(name="audit-scenarios", script="replay/found.py", args=["C06", "{tier}"], timeout=1500, bound="scenarios contributed by audit sub-agents (replay/found/MANIFEST.json): repaired defects must stay repaired, recorded findings are probed"), dict(name="memory-scenarios", script="replay/mem.py", args=["C06"],
                       bound="call-form equivalence / redefinition / crash-state scenarios on a real cache directory (every truncation length of func_code.py, "
@@ -146,7 +146,7 @@ REGISTRY = {
         undecided_clauses=[],
     ),
     "C12": dict(
-        packs=["mem"], level="proof",
+        packs=["mem", "xfl"], level="proof",
         replay=dict(script="replay/mem.py", args=["C12"], timeout=600),
         bounded=[dict(name="audit-scenarios", script="replay/found.py", args=["C12", "{tier}"], timeout=1500, bound="scenarios contributed by audit sub-agents (replay/found/MANIFEST.json): repaired defects must stay repaired, recorded findings are probed"), dict(name="memory-scenarios", script="replay/mem.py", args=["C12"],
                       bound="call-form equivalence / redefinition / crash-state scenarios on a real cache directory (every truncation length of func_code.py, "
